@@ -23,6 +23,11 @@ func c02RuleAlphabet() []c02RuleVar {
 	for _, k := range []string{"BEGIN", "END", "BEGINFILE", "ENDFILE"} {
 		out = append(out, c02RuleVar{kind: k}, c02RuleVar{kind: k, signal: "exit"})
 	}
+	// next taken in a special rule: there is no element to abandon, so it ends that rule only; every later rule of the
+	// kind still runs ("BEGIN rules run once", "the BEGINFILE rules run ... then the ENDFILE rules")
+	for _, k := range []string{"BEGIN", "END", "BEGINFILE", "ENDFILE"} {
+		out = append(out, c02RuleVar{kind: k, signal: "next"})
+	}
 	for p := 0; p < 4; p++ {
 		for _, sg := range []string{"", "next", "exit"} {
 			out = append(out, c02RuleVar{kind: "pat", pattern: p, signal: sg})
@@ -244,6 +249,8 @@ func c02RichPrograms(alpha []c02RuleVar) [][]int {
 		mk("true{}", "$>1"),
 		mk("false{}", "{}+exit", "END"),
 		mk("BEGINFILE", "$>1{}", "{}", "ENDFILE"),
+		mk("BEGINFILE+next", "BEGINFILE", "{}", "ENDFILE+next", "ENDFILE", "END+next", "END"),
+		mk("BEGIN+next", "BEGIN", "{}+next", "{}", "END"),
 	}
 }
 
@@ -252,8 +259,8 @@ func init() {
 	n := len(alpha)
 	fw.Register(&fw.Prop{
 		ID: "C02",
-		Rule: "rule sequences over 22 rule variants (BEGIN/END/BEGINFILE/ENDFILE with and without exit; pattern-less, true, false and $>1 pattern rules with nothing, next or exit; a body-less pattern rule, a rule that mutates $), every body printing its rule number, $, $file (and $index when every root is an array); " +
-			"(A) all sequences of <= N rules on three rich configurations, (B) 12 fixed rich programs on all 915 configurations (0-2 files x 13 file contents incl. empty, two values and all root shapes x 5 selector lists), (C) all sequences of <= M rules on all configurations; " +
+		Rule: "rule sequences over 26 rule variants (BEGIN/END/BEGINFILE/ENDFILE with nothing, exit or next; pattern-less, true, false and $>1 pattern rules with nothing, next or exit; a body-less pattern rule, a rule that mutates $), every body printing its rule number, $, $file (and $index when every root is an array); " +
+			"(A) all sequences of <= N rules on three rich configurations, (B) 16 fixed rich programs on all 915 configurations (0-2 files x 13 file contents incl. empty, two values and all root shapes x 5 selector lists), (C) all sequences of <= M rules on all configurations; " +
 			"oracle: the schedule model of DESIGN.md 3.13 (exact stdout, outcome and JSON output); a state is the order in which rule kinds fired; non-trivial = same",
 		Plan: func(t fw.Tier) int { return n*n + len(c02Configs()) },
 		Bound: func(t fw.Tier) string {
@@ -262,7 +269,7 @@ func init() {
 			}
 			return "(A) <= 4 rules, (B) all configurations, (C) <= 2 rules"
 		},
-		Assumptions: []string{"schedule model mc/refsem/run.go", "next in BEGIN/END/BEGINFILE/ENDFILE and $file/$index where they were never bound are not generated (only C01 constrains them)"},
+		Assumptions: []string{"schedule model mc/refsem/run.go", "next taken in a BEGIN/END/BEGINFILE/ENDFILE rule ends that rule only (repair d6eb1ee); $file/$index where they were never bound are not generated (only C01 constrains them)"},
 		Run: func(c *fw.Ctx, u int) {
 			if u < n*n {
 				// (A): sequences starting with (a, b), and the short sequences in the first units
